@@ -343,12 +343,21 @@ fn octet(ip: IpAddr) -> u8 {
     }
 }
 
-/// The 1316-byte data packet with sequence number `seq` (16-byte SRT data header, patterned payload).
+/// The data packet with sequence number `seq` (16-byte SRT data header, patterned payload; 1316 bytes, edge sizes mixed in).
 pub const FLOOD_SEQ0: u32 = 0x2000_0000;
 
 pub fn source_packet(seq: u32) -> Vec<u8> {
     // the overload phase uses small datagrams from a sequence range of its own
-    let mut pkt = vec![0u8; if seq >= FLOOD_SEQ0 { 64 } else { 1316 }];
+    // ordinary stream: 1316 bytes (7 TS cells + header); every 16th datagram takes one of the edge sizes up to the MTU
+    // (C01 quantifies over client datagrams of 1..MTU bytes: the loop's own receive buffer must hold all of them)
+    let len = if seq >= FLOOD_SEQ0 {
+        64
+    } else if seq % 16 == 5 {
+        [1500usize, 1499, 1473, 1472, 17, 188, 1317, 1457][((seq / 16) % 8) as usize]
+    } else {
+        1316
+    };
+    let mut pkt = vec![0u8; len];
     pkt[0..4].copy_from_slice(&seq.to_be_bytes());
     for (i, b) in pkt.iter_mut().enumerate().skip(16) {
         *b = (seq as usize * 31 + i * 7) as u8;
